@@ -81,7 +81,93 @@ static inline void spec_cs_toggle(SpecState& st) {
 #define S_EXC(k) do { out.kind = SO_EXC; out.exc = (k); return out; } while (0)
 #define S_NEED(k) do { if (S.size() < (size_t)(k)) S_ERR(SCRIPT_ERR_INVALID_STACK_OPERATION); } while (0)
 #define S_TOP(k) (S[S.size() - (k)])
+#ifndef SPEC_EXT_NUM_BYTES
+#define SPEC_EXT_NUM_BYTES 5
+#endif
+#ifndef SPEC_EXT_MUL_BYTES
+#define SPEC_EXT_MUL_BYTES 4
+#endif
 #define S_NUM(var, item, maxlen) int64_t var; do { int k_ = spec_num_decode_kind((item).data(), (item).size(), minimal, (maxlen)); if (k_ != 0) S_EXC(k_); var = spec_num_value((item).data(), (item).size()); } while (0)
+
+
+// ---- re-enabled ("extended") opcodes, property C17: the functions their names denote (Bitcoin 0.3 semantics on script
+// values); invalid operands must yield a script error (any error code: err = -1), never a trap.
+#define SPEC_ANY_ERROR (-1)
+static inline SpecOut spec_ext(const SpecCtx& c, SpecState& st) {
+    SpecOut out; out.kind = SO_OK; out.err = 0; out.exc = 0;
+    sstack& S = st.stack;
+    const unsigned int op = c.opcode;
+    const bool minimal = (c.flags & SCRIPT_VERIFY_MINIMALDATA) != 0;
+    if (op == SOP_CAT) {                       // (x1 x2 -- x1||x2)
+        S_NEED(2); sbytes a = S_TOP(2); const sbytes& b = S_TOP(1);
+        for (size_t i = 0; i < b.size(); ++i) a.push_back(b[i]);
+        S.pop_back(); S.pop_back(); S.push_back(a);
+    } else if (op == SOP_SUBSTR) {             // (in begin size -- in[begin, begin+size))
+        S_NEED(3);
+        S_NUM(first, S_TOP(2), 2);
+        if (first < 0) S_ERR(SPEC_ANY_ERROR);
+        S_NUM(cnt, S_TOP(1), 2);
+        const sbytes& in = S_TOP(3);
+        if (cnt < 0) S_ERR(SPEC_ANY_ERROR);
+        if ((uint64_t)(first + cnt) > (uint64_t)in.size()) S_ERR(SPEC_ANY_ERROR);   // (two statements: CBMC's C++ parser reads `a < b || c > d` as a template-id)
+        sbytes r; for (size_t i = 0; i < in.size(); ++i) if ((int64_t)i >= first && (int64_t)i < first + cnt) r.push_back(in[i]);
+        S.pop_back(); S.pop_back(); S.pop_back(); S.push_back(r);
+    } else if (op == SOP_LEFT || op == SOP_RIGHT) {   // (in size -- first/last size bytes)
+        S_NEED(2);
+        S_NUM(cnt, S_TOP(1), 2);
+        const sbytes& in = S_TOP(2);
+        if (cnt < 0) S_ERR(SPEC_ANY_ERROR);
+        if ((uint64_t)cnt > (uint64_t)in.size()) S_ERR(SPEC_ANY_ERROR);
+        sbytes r; size_t from = 0, to = (size_t)cnt;
+        if (op == SOP_RIGHT) { from = in.size() - (size_t)cnt; to = in.size(); }
+        for (size_t i = 0; i < in.size(); ++i) if (i >= from && i < to) r.push_back(in[i]);
+        S.pop_back(); S.pop_back(); S.push_back(r);
+    } else if (op == SOP_INVERT) {             // (in -- ~in)
+        S_NEED(1); sbytes r = S_TOP(1);
+        for (size_t i = 0; i < r.size(); ++i) r[i] = (unsigned char)(r[i] ^ 0xff);
+        S.pop_back(); S.push_back(r);
+    } else if (op == SOP_AND || op == SOP_OR || op == SOP_XOR) {   // (x1 x2 -- x1 op x2), equal lengths only
+        S_NEED(2); sbytes r = S_TOP(2); const sbytes& b = S_TOP(1);
+        if (r.size() != b.size()) S_ERR(SPEC_ANY_ERROR);
+        for (size_t i = 0; i < r.size(); ++i) {
+            if (op == SOP_AND) r[i] = (unsigned char)(r[i] & b[i]); else if (op == SOP_OR) r[i] = (unsigned char)(r[i] | b[i]); else r[i] = (unsigned char)(r[i] ^ b[i]);
+        }
+        S.pop_back(); S.pop_back(); S.push_back(r);
+    } else if (op == SOP_2MUL || op == SOP_2DIV) {   // (a -- 2a) (a -- a/2 truncated toward zero)
+        S_NEED(1);
+        S_NUM(a, S_TOP(1), SPEC_EXT_NUM_BYTES);
+        int64_t r = 0;
+        if (op == SOP_2MUL) r = a + a; else { if (a < 0) r = -((-a) >> 1); else r = a >> 1; }
+        S.pop_back(); S.push_back(spec_enc(r));
+    } else {                                   // MUL DIV MOD LSHIFT RSHIFT (a b -- out)
+        S_NEED(2);
+        S_NUM(a, S_TOP(2), op == SOP_MUL ? SPEC_EXT_MUL_BYTES : SPEC_EXT_NUM_BYTES);
+        S_NUM(b, S_TOP(1), op == SOP_MUL ? SPEC_EXT_MUL_BYTES : SPEC_EXT_NUM_BYTES);
+        int64_t r = 0;
+        if (op == SOP_MUL) {
+            r = a * b;                         // operands of at most 4 bytes: |a*b| < 2^62
+        } else if (op == SOP_DIV || op == SOP_MOD) {
+            if (b == 0) S_ERR(SPEC_ANY_ERROR);
+            // truncated division; the remainder takes the sign of the dividend: exactly C's / and % (C11 6.5.5p6), which is
+            // used here as the definition (|a|,|b| < 2^39, so INT64_MIN / -1 cannot occur)
+            if (op == SOP_DIV) r = a / b; else r = a % b;
+        } else {
+            if (b < 0) S_ERR(SPEC_ANY_ERROR);
+            if (b > 63) S_ERR(SPEC_ANY_ERROR);
+            if (op == SOP_LSHIFT) {            // a * 2^b, error when it does not fit in a script number (int64)
+                uint64_t ua = a < 0 ? (uint64_t)0 - (uint64_t)a : (uint64_t)a;
+                uint64_t sh = ua << b;
+                if ((sh >> b) != ua || sh > (uint64_t)9223372036854775807L) S_ERR(SPEC_ANY_ERROR);
+                if (a < 0) r = -(int64_t)sh; else r = (int64_t)sh;
+            } else {                           // floor(a / 2^b)
+                if (a >= 0) r = (int64_t)((uint64_t)a >> b);
+                else { uint64_t ua = (uint64_t)0 - (uint64_t)a; uint64_t q = ua >> b; bool exact = (q << b) == ua; r = -(int64_t)q; if (!exact) r = r - 1; }
+            }
+        }
+        S.pop_back(); S.pop_back(); S.push_back(spec_enc(r));
+    }
+    return out;
+}
 
 // the rules for one operation.  st is updated in place; on SO_ERR / SO_EXC the state is unspecified.
 static inline SpecOut spec_step(const SpecCtx& c, SpecState& st) {
@@ -239,6 +325,9 @@ static inline SpecOut spec_step(const SpecCtx& c, SpecState& st) {
             S.pop_back(); S.push_back(h);
         } else if (op == SOP_CODESEPARATOR) {
             st.codesep_moved = true; st.codesep_pos = c.opcode_pos;
+        } else if (spec_is_disabled(op)) {
+            SpecOut eo = spec_ext(c, st);
+            if (eo.kind != SO_OK) return eo;
         } else {
             // OP_RESERVED, OP_VER, OP_VERIF, OP_VERNOTIF, OP_RESERVED1/2, everything above OP_CHECKSIGADD; signature opcodes are
             // specified in spec_sig.h and never reach this function
